@@ -96,6 +96,9 @@ impl Server {
         let max_events = self.epoll_queue_max_events as i32;
         let mut events = vec![epoll_event { events: 0, u64: 0 }; max_events as usize];
         let graveyard: Graveyard = Arc::new(Mutex::new(Vec::new()));
+        // after StopAccepting the loop goes on until every connection it has taken on has ended (as `serve` does)
+        let mut stopping = false;
+        let mut live: usize = 0; // records handed to epoll and not yet freed
 
         'serve: loop {
             let n = unsafe { epoll_wait(epfd, events.as_mut_ptr(), max_events, RECLAIM_INTERVAL_MS) };
@@ -110,13 +113,22 @@ impl Server {
                 let token = ev.u64;
 
                 if token == LISTENER_TOKEN {
+                    if stopping {
+                        continue;
+                    }
                     // Edge-triggered accept: drain until WouldBlock
                     while let Ok((mut stream, _peer)) = listener.accept() {
                         if let Some(hook) = &self.connection_setup_hook {
                             stream = match (hook)(Ok((stream, _peer))) {
                                 ConnectionSetupAction::Proceed(s) => s,
                                 ConnectionSetupAction::Drop => continue,
-                                ConnectionSetupAction::StopAccepting => break 'serve,
+                                ConnectionSetupAction::StopAccepting => {
+                                    stopping = true;
+                                    unsafe {
+                                        let _ = epoll_ctl(epfd, EPOLL_CTL_DEL, listener.as_raw_fd(), ptr::null_mut());
+                                    }
+                                    break;
+                                }
                             }
                         }
 
@@ -155,6 +167,8 @@ impl Server {
                                 crate::verif::emit(crate::verif::Event::EpStreamDrop(handle_ptr));
                                 drop(Box::from_raw(stream_ptr)); // the socket is not registered: close it
                             }
+                        } else {
+                            live += 1;
                         }
                     }
                 } else {
@@ -179,6 +193,7 @@ impl Server {
             }
             // every event of this batch has been looked at: free the records handed back so far
             let dead = std::mem::take(&mut *graveyard.lock().unwrap());
+            live -= dead.len();
             for ptr in dead {
                 #[cfg(khttp_verif)]
                 crate::verif::emit(crate::verif::Event::EpFree(ptr));
@@ -186,16 +201,13 @@ impl Server {
             }
             #[cfg(khttp_verif)]
             crate::verif::emit(crate::verif::Event::EpBatchEnd);
+            if stopping && live == 0 {
+                break 'serve;
+            }
         }
 
-        // StopAccepting: let the workers finish what they have, then free the records they handed back
+        // StopAccepting, and every connection has ended: their records are freed, the workers are idle
         drop(worker_pool);
-        let dead = std::mem::take(&mut *graveyard.lock().unwrap());
-        for ptr in dead {
-            #[cfg(khttp_verif)]
-            crate::verif::emit(crate::verif::Event::EpFree(ptr));
-            unsafe { drop(Box::from_raw(ptr as *mut Handle)) };
-        }
         Ok(())
     }
 
